@@ -359,8 +359,8 @@ func readLPBytes(buf []byte) ([]byte, int, error) {
 	n = int(binary.BigEndian.Uint16(buf))
 	total += 2
 
-	if len(buf) < n {
-		return nil, total, fmt.Errorf("utils/readLPBytes: Insufficient buffer size. Expecting %d, got %d", n, len(buf))
+	if len(buf) < n+2 {
+		return nil, total, fmt.Errorf("utils/readLPBytes: Insufficient buffer size. Expecting %d, got %d", n+2, len(buf))
 	}
 
 	total += n
